@@ -208,24 +208,38 @@ theorem skipOne_le (buf : Lexer.Bytes) (n : Nat) (p : UInt8 → Bool) (h : n ≤
   · next hp => have := peekP_lt hp; omega
   · exact h
 
-/-- THE LOOP LEMMA.  A loop whose condition MEANS `!iseos && p(pos[0])` on every clean state (and leaves the state clean:
-no read outside the buffer; at and beyond the end of the input it must answer `false` WITHOUT reading) and whose body moves the cursor by one and updates its locals by `step` behaves as the hand
-model's `skipMany`, within `buf.length - n + 1` iterations. -/
+/-- one trip through a loop: the condition, then the body (`brk` when the condition fails) -/
+def tripC {L ρ : Type} (cond : CLex → L → CLex × Bool) (body : CLex → L → CLex × L × Flow ρ) (s : CLex) (l : L) : CLex × L × Flow ρ :=
+  if (cond s l).2 then body (cond s l).1 l else ((cond s l).1, l, Flow.brk)
+
+theorem whileC_succ {L ρ : Type} (cond : CLex → L → CLex × Bool) (body : CLex → L → CLex × L × Flow ρ) (fuel : Nat) (s : CLex) (l : L) :
+    whileC cond body (fuel + 1) s l =
+      match tripC cond body s l with
+      | (s, l, .next) => whileC cond body fuel s l
+      | (s, l, .brk) => (s, l, none)
+      | (s, l, .ret r) => (s, l, some r) := by
+  rw [whileC, tripC]
+  rcases cond s l with ⟨s', _ | _⟩ <;> rfl
+
+/-- THE LOOP LEMMA.  A loop one trip of which (condition, then body) MEANS, on every clean state: "if `!iseos && p(pos[0])`
+then move the cursor by one, update the locals by `step` and go on, else stop" - and leaves the state clean: no read outside
+the buffer; at and beyond the end of the input it must stop WITHOUT reading - behaves as the hand model's `skipMany`, within
+`buf.length - n + 1` iterations.  Stated about one trip, so `while (c) {..}` and `for (;;) { if (!c) break; .. }` both fit. -/
 theorem whileC_skip {L ρ : Type} (cond : CLex → L → CLex × Bool) (body : CLex → L → CLex × L × Flow ρ)
     (p : UInt8 → Bool) (step : L → L) (buf : Lexer.Bytes)
-    (hc : ∀ n l, cond (st buf n) l = (st buf n, Lexer.peekP buf n p))
-    (hb : ∀ n l, n < buf.length → Lexer.peekP buf n p = true → body (st buf n) l = (st buf (n + 1), step l, Flow.next))
+    (ht : ∀ n l, tripC cond body (st buf n) l =
+      if Lexer.peekP buf n p then (st buf (n + 1), step l, Flow.next) else (st buf n, l, Flow.brk))
     (fuel : Nat) (n : Nat) (l : L) (hf : buf.length - n < fuel) :
     whileC cond body fuel (st buf n) l =
       (st buf (Lexer.skipMany buf n p), iter step (Lexer.skipMany buf n p - n) l, none) := by
   induction fuel generalizing n l with
   | zero => omega
   | succ fuel ih =>
-    rw [whileC, hc n l]
+    rw [whileC_succ, ht n l]
     cases hp : Lexer.peekP buf n p
     · simp [skipMany_stop hp, iter]
     · have hlt := peekP_lt hp
-      simp only [hb n l hlt hp]
+      simp only [if_true]
       rw [ih (n + 1) (step l) (by omega), skipMany_step hp]
       have hge := skipMany_ge buf (n + 1) p
       have : Lexer.skipMany buf (n + 1) p - n = (Lexer.skipMany buf (n + 1) p - (n + 1)) + 1 := by omega
@@ -263,8 +277,7 @@ macro "lexc_loop " p:term ", " buf:term : tactic => `(tactic|
   (first
     | rw [whileC_skip (p := $p) (step := ((· + 1) : Int → Int)) (buf := $buf)]
     | rw [whileC_skip (p := $p) (step := (id : Unit → Unit)) (buf := $buf)]
-   case hc => intro n_ l_; lexc_cases n_, $buf
-   case hb => intro n_ l_ hlt_ hp_; simp; try lexc_close
+   case ht => intro n_ l_; simp only [tripC]; lexc_cases n_, $buf
    case hf => omega))
 
 /-! ### the `skip*` primitives -/
